@@ -320,6 +320,29 @@ def run(ctx):
                     ctx.fail(f'registered module carries {nh} hooks instead of 2', case, 'hooks')
                 if id(m) not in regids and nh != 0:
                     ctx.fail('hooks installed on an unregistered module', case, 'hooks-extra')
+        # the same root registered AGAIN after its tree was edited (a head replaced, an adapter added, a layer swapped for
+        # Identity): the second registration sees the tree as it is now
+        if it_ >= 3 and not neox and rng.random() < 0.15 and isinstance(root, torch.nn.Module) and len(list(root.children())) > 0:
+            kids = [n_ for n_, c_ in root.named_children()]
+            victim = rng.choice(kids)
+            try:
+                setattr(root, victim, rng.choice([torch.nn.Identity(), torch.nn.Linear(2, 2), torch.nn.Sequential(torch.nn.Linear(2, 2), torch.nn.ReLU())])) \
+                    if not isinstance(root, (torch.nn.Sequential, torch.nn.ModuleList, torch.nn.ModuleDict)) else root.__setitem__(
+                        victim if isinstance(root, torch.nn.ModuleDict) else int(victim), rng.choice([torch.nn.Identity(), torch.nn.Linear(2, 2)]))
+                if not isinstance(root, (torch.nn.Sequential, torch.nn.ModuleList, torch.nn.ModuleDict)):
+                    root.add_module('added_adapter', torch.nn.Linear(2, 2))
+                for m_ in root.modules():
+                    m_._forward_pre_hooks.clear()
+                    m_._backward_hooks.clear()
+                p2 = KFACPreconditioner(root, skip_layers=list(pats))
+                got2 = [(nm, id(m)) for m, (nm, _) in p2._layers.items()]
+                want2 = independent_walk(root, pats, False)
+                if got2 != want2:
+                    ctx.fail(f'second registration after editing the tree: registered {[g[0] for g in got2]} but the eligible leaves are now '
+                             f'{[w[0] for w in want2]}', dict(case, edited=victim), 'wrong-set-after-edit')
+                ctx.count('re-registered-after-edit')
+            except Exception as e:  # noqa: BLE001
+                ctx.fail(f'second registration raised {type(e).__name__}: {e}', dict(case, edited=victim), 'raised-after-edit')
         strings = names | (set(c.lower() for c in clsnames) if neox else clsnames)
         lines.append(f'register neox={int(neox)} tree={tree} tbl={tbl_str(strings, pats)}')
         pend.append((case, impl))
